@@ -775,6 +775,24 @@ fn c18_inverse_eval(ctx: &mut Ctx, which: u64, x: Dd) {
     ctx.set_nontrivial(x.lo != 0.0);
 }
 
+/// "For valid x no function of the family panics": all six functions on ANY valid x.
+fn c18_no_panic_total(ctx: &mut Ctx) {
+    let which = ctx.below(6);
+    let x = any_valid(ctx);
+    x.key(ctx);
+    ctx.key_u64(which);
+    note_dd(ctx, "x", x);
+    let (name, f): (&str, fn(TwoFloat) -> TwoFloat) =
+        [("sinh", inh::sinh as fn(TwoFloat) -> TwoFloat), ("cosh", inh::cosh), ("tanh", inh::tanh), ("asinh", inh::asinh), ("acosh", inh::acosh), ("atanh", inh::atanh)][which as usize];
+    ctx.note("function", || name.to_string());
+    if let Some(r) = call(ctx, name, x, f) {
+        if in_c01_operand_domain(x) {
+            check!(ctx, normalised_or_nonfinite(r), "{name}({}) = {} is neither normalised nor non-finite", x.show(), r.show());
+        }
+    }
+    ctx.set_nontrivial(x.hi.abs() > 600.0 || x.hi.abs() < 1e-290);
+}
+
 fn c18_forward_grid(ctx: &mut Ctx) {
     // +-k/128 up to 40, then +-k/2 up to 600
     let i = ctx.word();
@@ -810,6 +828,7 @@ pub fn c18() -> Property {
         subchecks: vec![
             g("sinh_cosh_tanh", c18_forward, 200_000, 6_000_000),
             g("asinh_acosh_atanh", c18_inverse, 300_000, 8_000_000),
+            g("no_panic_total", c18_no_panic_total, 400_000, 20_000_000),
             SubCheck { name: "forward_grid", kind: Kind::Enumerated { n: 2 * (5120 + 1120) }, eval: c18_forward_grid, quick: 0, thorough: 0 },
             SubCheck { name: "inverse_grid", kind: Kind::Enumerated { n: 3 * 2 * 128 * 64 }, eval: c18_inverse_grid, quick: 0, thorough: 0 },
         ],
